@@ -6,6 +6,7 @@
 #include <map>
 #include <sstream>
 #include <typeinfo>
+#include <sys/mman.h>
 #include "../sim/sim.h"
 #include "ops.h"
 #include "common/binary_stream_reader.h"
@@ -58,6 +59,7 @@ struct CallResult
 	std::string cat;    // ok | ser:<code> | bad_alloc | ios_failure | std:<type> | nonstd
 	std::string what;
 	bool isStd = true;
+	bool validation = false;   // ValidationException: `what` lists "path=message,...;" in path order
 };
 
 inline std::string Demangle(const char* n)
@@ -78,6 +80,19 @@ CallResult Guarded(F&& f)
 		f();
 		r.ok = true;
 		r.cat = "ok";
+	}
+	catch (const BitSerializer::ValidationException& e)
+	{
+		r.cat = "ser:" + BitSerializer::Convert::ToString(e.GetErrorCode());
+		for (auto& ch : r.cat) if (ch == ' ') ch = '_';
+		// the reported paths and messages are part of the outcome
+		r.validation = true;
+		for (const auto& kv : e.GetValidationErrors())
+		{
+			r.what += kv.first + "=";
+			for (const auto& m : kv.second) r.what += m + ",";
+			r.what += ";";
+		}
 	}
 	catch (const BitSerializer::SerializationException& e)
 	{
@@ -105,10 +120,11 @@ struct InCfg
 	uint32_t binChunk = 256;
 	uint32_t encChunk = 256;
 	bool skipFastSeek = false;
+	bool readOnlyMem = false;         // memory entry through a std::string_view of a read-only mapping followed by an inaccessible page
 
 	std::string str() const
 	{
-		std::string s = stream ? (seekable ? "stream:file" : "stream:pipe") : "mem";
+		std::string s = stream ? (seekable ? "stream:file" : "stream:pipe") : (readOnlyMem ? "mem:readonly-view" : "mem");
 		if (stream)
 		{
 			s += " delivery=[";
@@ -177,6 +193,34 @@ struct FailWindow
 	}
 };
 
+// The caller's input as a const object in the strict sense: a read-only mapping that ends at an inaccessible page, so a write
+// into the input or a read past its end stops the process at the faulting instruction (no sanitizer sees mmap'ed memory).
+class ReadOnlyCopy
+{
+public:
+	explicit ReadOnlyCopy(const std::string& bytes)
+	{
+		const size_t page = 4096;
+		mLen = ((bytes.size() + page - 1) / page + 1) * page;
+		mBase = static_cast<char*>(mmap(nullptr, mLen, PROT_READ | PROT_WRITE, MAP_PRIVATE | MAP_ANONYMOUS, -1, 0));
+		if (mBase == MAP_FAILED) throw std::runtime_error("harness: mmap failed");
+		char* guard = mBase + mLen - page;
+		mData = guard - bytes.size();
+		if (!bytes.empty()) memcpy(mData, bytes.data(), bytes.size());
+		mSize = bytes.size();
+		if (mLen > page) mprotect(mBase, mLen - page, PROT_READ);
+		mprotect(guard, page, PROT_NONE);
+	}
+	~ReadOnlyCopy() { munmap(mBase, mLen); }
+	ReadOnlyCopy(const ReadOnlyCopy&) = delete;
+	ReadOnlyCopy& operator=(const ReadOnlyCopy&) = delete;
+	std::string_view view() const { return std::string_view(mData, mSize); }
+private:
+	char* mBase = nullptr;
+	char* mData = nullptr;
+	size_t mLen = 0, mSize = 0;
+};
+
 struct LoadInfo
 {
 	bool faultFired = false;
@@ -200,6 +244,12 @@ inline CallResult LoadDynWith(ArchiveOps& ops, DynNode& skel, const std::string&
 			const std::string prefix = bytes.substr(0, faults.eofAt);
 			r = Guarded([&] { FailWindow fw; ops.LoadDyn(skel, o, IoIn{ &prefix, nullptr }); });
 			if (info) info->faultFired = true;
+		}
+		else if (c.readOnlyMem)
+		{
+			ReadOnlyCopy ro(bytes);
+			const std::string_view v = ro.view();
+			r = Guarded([&] { FailWindow fw; ops.LoadDyn(skel, o, IoIn{ nullptr, nullptr, &v }); });
 		}
 		else
 		{
@@ -527,6 +577,7 @@ inline void GenChildren(Source& s, Lane l, DynNode& n, const GenCfg& g, int dept
 	if (!g.allowEmptyContainers && count == 0) count = 1;
 	// homogeneous arrays are what containers produce; mixed arrays are what tuples/custom types produce
 	const bool homogeneous = !object && s.chance(l, 1, 2);
+	const bool cstrKeys = object && s.chance(l, 1, 2);
 	K hk = K::I32;
 	for (uint32_t i = 0; i < count && budget > 0; ++i)
 	{
@@ -542,12 +593,45 @@ inline void GenChildren(Source& s, Lane l, DynNode& n, const GenCfg& g, int dept
 		if (object)
 		{
 			Key k;
-			if (g.allowIntKeys && s.chance(l, 1, 6)) { k.isInt = true; k.i = static_cast<int64_t>(i) * 7 + s.range(l, -3, 3) * 1000; }
+			if (g.allowIntKeys && s.chance(l, 1, 6))
+			{
+				k.isInt = true;
+				k.i = static_cast<int64_t>(i) * 7 + s.range(l, -3, 3) * 1000;
+				if (s.chance(l, 1, 3))
+				{
+					// unsigned keys at the edges of the integer widths (user code: uint64_t key)
+					static const uint64_t edges[] = { 127, 128, 255, 256, 65535, 65536, 4294967295ull, 4294967296ull, 9223372036854775807ull, 9223372036854775808ull, 18446744073709551615ull };
+					Key e; e.isInt = true; e.ikind = 1; e.u = s.pick(l, edges);
+					bool clash = false;
+					for (auto& o : n.keys) if (o == e) clash = true;
+					if (!clash) k = e;
+				}
+				else if (s.chance(l, 1, 2))
+				{
+					// the same value through a narrower key type
+					if (k.i >= -128 && k.i <= 127) k.ikind = 3; else k.ikind = 2;
+				}
+			}
 			else
 			{
+				k.cstr = cstrKeys;
 				k.s = GenKeyName(s, l, g.archive, i);
 				// an integer key is converted to its decimal text by the text archives: keep string keys distinct from those
 				if (k.s.find_first_not_of("-0123456789") == std::string::npos) k.s = "s" + k.s;
+				if (!n.keys.empty() && !n.keys.back().isInt && s.chance(l, 1, 5))
+				{
+					// a key that extends the previous member's key (one is a proper prefix of the other)
+					Key e = k; e.s = n.keys.back().s + (s.chance(l, 1, 2) ? "2" : "_x");
+					bool clash = false;
+					for (auto& o : n.keys) if (o == e) clash = true;
+					if (!clash) k = e;
+				}
+				// names are unique by their index suffix, except against an earlier extended name
+				for (bool again = true; again;)
+				{
+					again = false;
+					for (auto& o : n.keys) if (o == k) { k.s += "u"; again = true; }
+				}
 			}
 			n.keys.push_back(std::move(k));
 		}
